@@ -22,6 +22,7 @@ type state struct {
 	feats   map[string]bool
 	deleted map[string]bool // keys deleted at least once (per history, any map)
 	nval    int
+	aliased bool
 }
 
 func (s *state) val() m.Expr {
